@@ -1,3 +1,76 @@
 import Driver.Common
-/-! Driver for property C18 (stub: the model for this property is not built yet). -/
-def main : IO Unit := Driver.run (fun (s : Unit) _ => (s, "unimplemented")) ()
+import TxdbusModel.Valid.Grammar
+import TxdbusModel.Valid.Names
+import TxdbusModel.Valid.MsgNames
+/-!
+Driver for property C18.  One request per line, one answer per line.  A Python `str` travels
+as the hex of its code points (6 digits each, "-" = empty); `~` stands for `None`.
+
+  v <s>                               -> 15 tokens: for path, iface, error, bus, member:
+                                         <model, isdigit(non-ASCII)=True> <model, isdigit(non-ASCII)=False> <grammar 0|1>
+  call <path> <member> <iface|~> <dest|~>   -> <outcome na=True> <outcome na=False>
+  ret <dest|~>                              -> same
+  err <error_name> <dest|~>                 -> same
+  sig <path> <member> <iface> <dest|~>      -> same
+
+Outcomes: accept | MarshallingError | IndexError | Exception.
+-/
+open Txdbus.Valid
+
+namespace Driver.C18
+
+def showOutcome : Outcome → String
+  | .accept => "accept"
+  | .raised .marshallingError => "MarshallingError"
+  | .raised .indexError => "IndexError"
+  | .raised .exception => "Exception"
+
+def bit (b : Bool) : String := if b then "1" else "0"
+
+def naT : Char → Bool := fun _ => true
+def naF : Char → Bool := fun _ => false
+
+def triple (f : (Char → Bool) → Outcome) (g : Bool) : String :=
+  showOutcome (f naT) ++ " " ++ showOutcome (f naF) ++ " " ++ bit g
+
+def both (f : (Char → Bool) → Outcome) : String :=
+  showOutcome (f naT) ++ " " ++ showOutcome (f naF)
+
+def optStr? (w : String) : Option (Option Str) :=
+  if w == "~" then some none else (Driver.hexToChars? w).map some
+
+def step (_ : Unit) (line : String) : Unit × String :=
+  let out : String :=
+    match Driver.words line with
+    | ["v", w] =>
+      match Driver.hexToChars? w with
+      | none => "bad-input"
+      | some s =>
+        String.intercalate " " [
+          triple (fun _ => validateObjectPath s) (Grammar.objectPath s),
+          triple (fun na => validateInterfaceName na s) (Grammar.interfaceName s),
+          triple (fun na => validateErrorName na s) (Grammar.errorName s),
+          triple (fun na => validateBusName na s) (Grammar.busName s),
+          triple (fun na => validateMemberName na s) (Grammar.memberName s)]
+    | ["call", p, m, i, d] =>
+      match Driver.hexToChars? p, Driver.hexToChars? m, optStr? i, optStr? d with
+      | some p, some m, some i, some d => both fun na => constructMethodCall na p m i d
+      | _, _, _, _ => "bad-input"
+    | ["ret", d] =>
+      match optStr? d with
+      | some d => both fun na => constructMethodReturn na d
+      | _ => "bad-input"
+    | ["err", e, d] =>
+      match Driver.hexToChars? e, optStr? d with
+      | some e, some d => both fun na => constructError na e d
+      | _, _ => "bad-input"
+    | ["sig", p, m, i, d] =>
+      match Driver.hexToChars? p, Driver.hexToChars? m, Driver.hexToChars? i, optStr? d with
+      | some p, some m, some i, some d => both fun na => constructSignal na p m i d
+      | _, _, _, _ => "bad-input"
+    | _ => "bad-request"
+  ((), out)
+
+end Driver.C18
+
+def main : IO Unit := Driver.run Driver.C18.step ()
